@@ -163,13 +163,18 @@ def analyse(prog, f, chunk, eof0, ctor=False):
     return out
 
 
-def check(prog, rep):
-    rep.rule('R13.6', 'CEncodedStreamReader: on every feasible path of the constructor, ReadChunk and its helpers the window invariant '
+def check(prog, rep, ids=None):
+    ids = ids or {'R13.6': 'R13.6', 'R13.7': 'R13.7', 'R13.8': 'R13.8'}      # other properties run the same obligations under their own rule ids
+    R6, R7, R8 = ids.get('R13.6'), ids.get('R13.7'), ids.get('R13.8')
+    if R6:
+      rep.rule(R6, 'CEncodedStreamReader: on every feasible path of the constructor, ReadChunk and its helpers the window invariant '
                       'BUF <= mStartDataPtr <= mEndDataPtr <= BUF + ChunkSize is re-established, refill/squeeze requests fit the buffer, '
                       'memcpy regions do not overlap, Decode gets an ordered range inside the window, and the code\'s own asserts are entailed', floor=70)
-    rep.rule('R13.7', 'CEncodedStreamReader::ReadChunk at end of file: a Success result leaves the window empty, so IsEnd() becomes true '
+    if R7:
+      rep.rule(R7, 'CEncodedStreamReader::ReadChunk at end of file: a Success result leaves the window empty, so IsEnd() becomes true '
                       '(otherwise every "until IsEnd()" loop of a caller spins forever on a truncated last unit)', floor=4)
-    rep.rule('R13.8', 'CEncodedStreamReader::ReadChunk returns EndFile only with an empty window and DecodeError only when a decoding error was '
+    if R8:
+      rep.rule(R8, 'CEncodedStreamReader::ReadChunk returns EndFile only with an empty window and DecodeError only when a decoding error was '
                       'reported or a truncated tail was refused by the policy', floor=8)
     insts = {}
     for f in prog.funcs.values():
@@ -230,19 +235,23 @@ def check(prog, rep):
                 raise AnalysisBroken('encoded reader: no feasible path through %s' % f.id[:120])
             for key, oks in sorted(agg.items(), key=lambda kv: str(kv[0])):
                 if key[0] in ('R13.7', 'R13.8'):
+                    if not ids.get(key[0]):
+                        continue
                     bad = [w for ok, w in oks if not ok]
                     if bad:
                         key = (key[0], strip_targs(key[1].split('|')[0]) + '|' + key[1].split('|', 1)[1])
                         msg = {'R13.7': 'ReadChunk returns Success at end of file while bytes remain in the window (%s): IsEnd() never becomes true - a stream '
                                         'whose byte count is not a multiple of the code unit makes every reader loop spin forever',
                                'R13.8': '%s'}[key[0]] % sorted(set(bad))[0]
-                        rep.finding(key[0], key[1], f.loc(), '%s: %s' % (fshort, msg), func=f.id)
+                        rep.finding(ids[key[0]], key[1], f.loc(), '%s: %s' % (fshort, msg), func=f.id)
                     else:
-                        rep.ok(key[0], key[1], sample={'function': fshort, 'paths': len(oks)})
+                        rep.ok(ids[key[0]], key[1], sample={'function': fshort, 'paths': len(oks)})
+                    continue
+                if not R6:
                     continue
                 what, where = key
                 if all(oks):
-                    rep.ok('R13.6', '%s|%s|%s' % (fshort, what, where), sample={'function': fshort, 'obligation': what, 'at': where, 'paths': len(oks)})
+                    rep.ok(R6, '%s|%s|%s' % (fshort, what, where), sample={'function': fshort, 'obligation': what, 'at': where, 'paths': len(oks)})
                 else:
-                    rep.finding('R13.6', '%s|%s' % (strip_targs(fshort), what), where,
+                    rep.finding(R6, '%s|%s' % (strip_targs(fshort), what), where,
                                 '%s: "%s" is not entailed on %d of %d feasible path(s)' % (fshort, what, len([o for o in oks if not o]), len(oks)), func=f.id)
